@@ -9,7 +9,7 @@ ALL = ["C%02d" % i for i in range(1, 21)]
 # id -> (category, text, level_note, technique, engine, design_ref)
 CHECKS = {
     "C01": ("exploration",
-            "Reference-model monitor: ~3k (quick) / ~100k (thorough) seeded, type-directed, well-typed programs are analysed by the real analyzer, compiled and run on the VM with an effect-logging host; effects, outcome class/kind/message are compared with an independent reference evaluator of the source-level semantics, plus the residue invariant (operand stack, frames, memory pointer, handlers all zero at exit) observed through the core-exit hook. Held on the executions produced; constructs poisoned by open findings are only exercised by tagged cases.",
+            "Reference-model monitor: ~3k (quick) / ~100k (thorough) seeded, type-directed, well-typed programs are analysed by the real analyzer, compiled and run on the VM with an effect-logging host; effects, outcome class/kind/message are compared with an independent reference evaluator of the source-level semantics, plus the residue invariant (operand stack beyond the function's result, frames, memory pointer, handlers all zero at exit) observed through the core-exit hook. Held on the executions produced; constructs poisoned by open findings are only exercised by tagged cases.",
             "Trusts the reference evaluator harness/prog/eval.go as the reading of the semantics listed in C01; float text rendering is mirrored, not specified.",
             "runtime monitoring: generated programs vs executable reference model + residue invariant hook", "prog-gen+model", "DESIGN.md §3 C01"),
     "C03": ("exploration",
